@@ -36,8 +36,8 @@ func main() {
 		// one schedule-exploring run per version: a single pair, delay bound 1 (quick) / 2 (thorough)
 		cfg := hconn.Cfg{Version: v, Compression: primitive.CompressionLz4, Auth: v == gen.V5}
 		name := fmt.Sprintf("exchange-sched/%v", v)
-		explore.Register(hconn.ExchangeHarness(name, cfg, hconn.Pairs(v, false)[:1], 1))
-		hs = append(hs, hdesc{name, 1, "quick"})
+		explore.Register(hconn.ExchangeHarness(name, cfg, hconn.Pairs(v, false)[:1], 2))
+		hs = append(hs, hdesc{name, 2, "quick"})
 	}
 	for _, h := range hconn.RawPeerHarnesses() {
 		explore.Register(h)
